@@ -362,7 +362,16 @@ class Interp:
             return args[1]
         # methods of python containers held abstractly
         recv = f.recv
+        if isinstance(recv, (dict, set, list)) and last == '__contains__':
+            return args[0] in recv
         if isinstance(recv, dict):
+            if last == '__getitem__':
+                if args[0] not in recv:
+                    raise ARaise('KeyError')
+                return recv[args[0]]
+            if last == '__setitem__':
+                recv[args[0]] = args[1]
+                return None
             if last == 'get':
                 k = args[0]
                 return recv.get(k, args[1] if len(args) > 1 else None)
